@@ -496,6 +496,31 @@ theorem C18_inverse_apply (m : Mapping) (h1 : OneToOne m) (h2 : Explicit m) :
     have : (((p, some v) : Str × Option Str) == (q, some w)) = false := by simpa using hne2
     simp [this]
 
+/-- **C18, inverse, on a live mapping.**  `inverse()` is a function of the mapping as it is when it is called: after
+*any* sequence of `add` and `merge` operations on a mapping object — in particular after the rules of
+`manifest.remap` have been merged into a mapping whose inverse had been taken before (`Repository.create`) — the
+inverse taken *now* undoes the mapping as it is *now*, whenever that is one-to-one on explicit versions. -/
+theorem C18_inverse_live (ops : List MapOp) (m0 : Mapping)
+    (h1 : OneToOne (runOps ops m0)) (h2 : Explicit (runOps ops m0)) :
+    ∃ inv, (runOps ops m0).inverse = some inv ∧
+      ∀ f p v q w, lk (runOps ops m0).map f p v = some (q, some w) → (p, v) ≠ (q, w) →
+        (runOps ops m0).apply p v f = (q, some w) ∧ inv.apply q w f = (p, some v) :=
+  C18_inverse_apply (runOps ops m0) h1 h2
+
+/-- Non-vacuity: `a:1 -> b:4`, inverse taken, then `c:2 -> d:5` merged in: the second inverse knows both entries, the
+first one only the first. -/
+example :
+    let r1 : Rule := { inP := [97], inV := [49], outP := some [98], outV := some [52], flavor := sGeneric }
+    let r2 : Rule := { inP := [99], inV := [50], outP := some [100], outV := some [53], flavor := sGeneric }
+    let m1 := runOps [.add r1 true] {}
+    let m2 := runOps [.add r1 true, .merge (buildMapping false [r2]) false] {}
+    OneToOne m2 ∧ Explicit m2 ∧
+      (m1.inverse.map fun i => i.apply [100] [53] sGeneric) = some ([100], some [53]) ∧
+      (m2.inverse.map fun i => (i.apply [100] [53] sGeneric, i.apply [98] [52] sGeneric)) =
+        some (([99], some [50]), ([97], some [49])) := by
+  unfold OneToOne Explicit
+  decide
+
 /-- **The hypothesis "not an identity" is needed at the level of `apply` (negation witness).**  The `Linux` table
 holds the identity `a:1 -> a:1`, the `generic` table `c:3 -> a:1`: the mapping is one-to-one (per flavor, as
 `inverse()` tests it) and explicit, `inverse()` succeeds, `apply` leaves `a:1` alone under `Linux` — and the
